@@ -26,11 +26,49 @@ RULE = (
 )
 ASSUMPTIONS = ["requests arrive at boundaries between event-loop callbacks"]
 
-check_case = e1common.make_check(e1oracles.oracle_c14)
+_REF = {}
+
+
+def check_case(case):
+    """C14 oracle + differential against the uninterrupted execution of the same plan (per run and stream the
+    same final data and num_events, every resume completes): a message applied to the wrong run after a
+    rewind shows up as a moved or lost event."""
+    import copy
+
+    from ..core import Result
+    from ..engine.harness import run_case
+
+    obs = run_case(case)
+    res = Result()
+    res.klass = e1common.klass_of(case, obs)
+    res.classes.append("landing:" + e1common.landing(obs))
+    e1oracles.oracle_c14(case, obs, res)
+    has_fault = bool(case.get("faults"))
+    interrupted_only = all(i["inj"]["do"] in ("pause", "suspend", "defer") for i in obs.injected) and all(
+        s["do"] in ("call", "resume") for s in case.get("stages", [])
+    )
+    if obs.injected and interrupted_only and not has_fault and not res.failures:
+        ref_case = copy.deepcopy(case)
+        ref_case["stages"] = [{"do": "call"}]
+        ref_case.pop("probe", None)
+        key = repr((ref_case["plan"], ref_case.get("devices"), ref_case.get("re")))
+        ref = _REF.get(key)
+        if ref is None:
+            ref = run_case(ref_case)
+            if len(_REF) > 50:
+                _REF.clear()
+            _REF[key] = ref
+        if ref.calls[0].get("outcome") == "return":
+            nt = res.nontrivial
+            e1oracles.oracle_c03(case, obs, res, ref)
+            res.nontrivial = nt
+            res.classes.append("differential")
+    return res
 
 
 def run(ctx):
     cases = list(corpus.single_request_cases(["nested_keys"], ("pause", "suspend", "abort", "stop"), decisions=("resume", "abort")))
+    cases += list(corpus.single_request_cases(["nested_keys"], ("pause", "suspend"), decisions=("resume",), probe=False))
     ctx.sweep(cases, check_case)
     ctx.extra["sweep_cases"] = len(cases)
     e1common.generated(ctx, check_case, n=ctx.pick(1500, 30000), profile="keys")
